@@ -99,7 +99,13 @@ class C20(Check):
                    'only': rng.choice(list(ONLY)), 'kinds': [rng.choice(KINDS) for _ in range(n)],
                    'ties': rng.random() < 0.2, 'shared': rng.random() < 0.15,
                    # gathers that take seconds or a minute (virtual), not milliseconds
-                   'scale': rng.choice([1, 1, 1, 2000, 20000])}
+                   'scale': rng.choice([1, 1, 1, 2000, 20000]),
+                   # the loop's task factory (3.12: eager tasks run their first step inside create_task), awaitables that
+                   # finish without ever suspending, and a caller that was cancelled once before, caught it and went on
+                   # (its Task.cancelling() count stays at 1 for life)
+                   'factory': rng.choice(['default', 'default', 'eager', 'custom']),
+                   'instant': [i for i in range(n) if rng.random() < rng.choice([0, 0, 0.3, 0.7])],
+                   'caller': rng.choice(['plain', 'plain', 'cancelled_before', 'uncancelled_before', 'in_timeout', 'in_taskgroup'])}
         # many awaitables at once, on two event loops one after the other in the same process
         for _ in range(60 if tier == 'quick' else 1500):
             n = rng.choice([65, 70, 100, 130, 200])
@@ -154,7 +160,8 @@ class C20(Check):
                         try:
                             d = (rank[i] + 1) * U if not case.get('ties') else ((rank[i] // 2) + 1) * U
                             d *= case.get('scale', 1)
-                            await aio.sleep(d)
+                            if i not in case.get('instant', ()):
+                                await aio.sleep(d)
                             if excs[i] is not None:
                                 raise excs[i]
                             return ('v', i)
@@ -217,7 +224,35 @@ class C20(Check):
                     # leave nothing behind
                     await aio.sleep((n + 2) * U * case.get('scale', 1))
                     box['late_finish'] = sum(1 for x in log if x[0] == 'finish')
-                loop.run_until_complete(m())
+                fac = case.get('factory', 'default')
+                if fac == 'eager':
+                    loop.set_task_factory(aio.eager_task_factory)
+                elif fac == 'custom':
+                    class NamedTask(aio.Task):
+                        pass
+                    loop.set_task_factory(lambda lp, coro, **kw: NamedTask(coro, loop=lp, **kw))
+                caller = case.get('caller', 'plain')
+
+                async def outer():
+                    if caller in ('cancelled_before', 'uncancelled_before'):
+                        me = aio.current_task()
+                        loop.call_later(U, me.cancel)
+                        try:
+                            await aio.sleep(50 * U)
+                        except aio.CancelledError:
+                            if caller == 'uncancelled_before':
+                                me.uncancel()
+                        log.append(('caller_cancelling', me.cancelling()))
+                        await m()
+                    elif caller == 'in_timeout':
+                        async with aio.timeout(10 ** 7 * U):
+                            await m()
+                    elif caller == 'in_taskgroup':
+                        async with aio.TaskGroup() as tg:
+                            await tg.create_task(m())
+                    else:
+                        await m()
+                loop.run_until_complete(outer())
                 loop.close()
                 if case.get('big'):
                     # a second event loop in the same process: module-level state must not be tied to the first
@@ -312,6 +347,16 @@ class C20(Check):
             st['long_running_gather'] += 1
         if 'done' in case['kinds']:
             st['already_settled_future_in_input'] += 1
+        if case.get('factory') == 'eager':
+            st['eager_task_factory'] += 1
+            if case.get('instant'):
+                st['eager_and_instant_awaitable'] += 1
+        if case.get('instant'):
+            st['awaitable_finishing_without_suspending'] += 1
+        if any(e[0] == 'caller_cancelling' and e[1] > 0 for e in r.log):
+            st['caller_with_stale_cancel_request'] += 1
+        if case.get('caller') in ('in_timeout', 'in_taskgroup'):
+            st['caller_inside_timeout_or_taskgroup'] += 1
         res.nontrivial = n >= 2 and ((nfail >= 1 and reordered) or nfail >= 2)
         if res.nontrivial:
             st['nontrivial'] += 1
@@ -323,7 +368,9 @@ class C20(Check):
         k = 1 if tier == 'quick' else 10
         return {'exception_group_raised': 3000 * k, 'long_running_gather': 3000 * k, 'big_two_loop_cases': 40 * k,
                 'own_cancellederror_raised': 5000 * k, 'already_settled_future_in_input': 5000 * k, 'nontrivial': 10000 * k, 'two_or_more_failures': 8000 * k, 'finish_order_differs_with_failure': 8000 * k,
-                'subclass_matched': 3000 * k, 'baseexception_only_raised': 5000 * k}
+                'subclass_matched': 3000 * k, 'baseexception_only_raised': 5000 * k,
+                'eager_and_instant_awaitable': 1000 * k, 'caller_with_stale_cancel_request': 1500 * k,
+                'caller_inside_timeout_or_taskgroup': 2500 * k}
 
     def extra_evidence(self, tier, agg):
         return {'exhaustive': False,
